@@ -38,12 +38,21 @@ func genC06(t *rapid.T) C06Scn {
 		}
 		s.Deliveries = append(s.Deliveries, d)
 	}
+	if rapid.IntRange(0, 2).Draw(t, "burst") == 0 {
+		// a run of fresh updates (rising sequence numbers, so each is accepted), every one arriving over all links at the same
+		// moment: many attempts at the window between "have I seen this update?" and "now I have"
+		k := rapid.IntRange(8, 24).Draw(t, "burstlen")
+		origin := rapid.IntRange(0, 2).Draw(t, "burstorigin")
+		for i := 0; i < k; i++ {
+			s.Deliveries = append(s.Deliveries, C06Delivery{Link: i % 4, Origin: origin, Epoch: 2, Seq: 10 + i, Adj: i % 7, Replay: -1, Also: []int{0, 1, 2, 3}})
+		}
+	}
 	return s
 }
 
 func TestC06(t *testing.T) {
 	st := vx.NewStats("C06", "model", "one real node with 2-4 scripted peers; 1-25 deliveries (link, origin from {3 remote names, the peers, the node itself}, "+
-		"epoch e0<e1<e2, sequence 0-5, adjacency from a pool, fresh or verbatim replay of an earlier delivery, optional suspected-duplicate notice, optionally the same update arriving on 2-4 links at the same moment); reference model keeps "+
+		"epoch e0<e1<e2, sequence 0-5, adjacency from a pool, fresh or verbatim replay of an earlier delivery, optional suspected-duplicate notice, optionally the same update arriving on 2-4 links at the same moment; one scenario in three ends with a run of 8-24 fresh updates that each arrive on all links at once); reference model keeps "+
 		"per origin the newest accepted (epoch, seq) and the seen IDs; oracle = KnownConnectionCosts snapshot before/after each delivery + relays seen by each peer; "+
 		"non-trivial = a stale or replayed delivery follows an accepted one for the same origin (>=2 neighbours); distinct by canonical JSON")
 	defer st.Flush()
